@@ -539,6 +539,17 @@ func execConc(c ConcCase) kit.Outcome {
 	return o
 }
 
+func trimPayloads(a []string) []string {
+	out := make([]string, len(a))
+	for i, p := range a {
+		if j := strings.IndexByte(p, '|'); j > 0 {
+			p = p[:j]
+		}
+		out[i] = p
+	}
+	return out
+}
+
 // orderProblem: payloads are "p<publisher>:<seq>"; per publisher the sequence must be strictly increasing.
 func orderProblem(got []string) string {
 	last := map[string]int{}
@@ -573,9 +584,11 @@ func TestConcurrent(t *testing.T) {
 // ---------------------------------------------------------------- a subscriber that stops reading
 
 type StallCase struct {
-	PayloadKB int `json:"payload_kb"`
-	Messages  int `json:"messages"`
-	Healthy   int `json:"healthy_subscribers"`
+	PayloadKB int  `json:"payload_kb"`
+	Messages  int  `json:"messages"`
+	Healthy   int  `json:"healthy_subscribers"`
+	Late      bool `json:"late,omitempty"` // another subscriber arrives LateMs after the publishing began
+	LateMs    int  `json:"late_ms,omitempty"`
 }
 
 // execStall: one subscriber subscribes and then never reads again; publishers must not be blocked
@@ -619,13 +632,64 @@ func execStall(c StallCase) kit.Outcome {
 	}
 	defer pub.Close()
 	payload := strings.Repeat("x", c.PayloadKB*1024)
+	// a subscriber that arrives while the publishers are at work (and possibly while one of them is stuck
+	// on the subscriber that does not read): once its SUBSCRIBE is confirmed it receives every message
+	// whose PUBLISH starts afterwards
+	var started int64 // number of PUBLISH commands begun
+	lateFrom := int64(-1)
+	var late *subscriber
+	lateDone := make(chan string, 1)
+	if c.Late {
+		go func() {
+			time.Sleep(time.Duration(c.LateMs) * time.Millisecond)
+			ls, err := newSubscriber()
+			if err != nil {
+				lateDone <- ""
+				return
+			}
+			if err := ls.subscribe([]string{ch}); err != nil {
+				ls.close()
+				lateDone <- "late SUBSCRIBE: " + err.Error()
+				return
+			}
+			late = ls
+			atomic.StoreInt64(&lateFrom, atomic.LoadInt64(&started))
+			lateDone <- ""
+		}()
+	} else {
+		lateDone <- ""
+	}
 	for i := 0; i < c.Messages; i++ {
 		start := time.Now()
+		atomic.AddInt64(&started, 1)
 		if _, err := pub.Do(8*time.Second, []byte("PUBLISH"), []byte(ch), []byte(fmt.Sprintf("p0:%d|%s", i, payload))); err != nil {
 			o.Fail = died(fmt.Sprintf("PUBLISH %d of %d (%d KB each) did not return within %v while one subscriber is not reading: %v", i, c.Messages, c.PayloadKB, time.Since(start).Round(time.Millisecond), err))
 			stopServer() // a wedged publisher holds the channel: start the next case clean
 			return o
 		}
+	}
+	if msg := <-lateDone; msg != "" {
+		o.Fail = died(msg)
+		return o
+	}
+	if late != nil {
+		defer late.close()
+		from := atomic.LoadInt64(&lateFrom) // messages with index >= from were published after the confirmation
+		want := int64(c.Messages) - from
+		dl := time.Now().Add(5 * time.Second)
+		for int64(len(late.got(ch))) < want && time.Now().Before(dl) {
+			time.Sleep(5 * time.Millisecond)
+		}
+		got := late.got(ch)
+		if int64(len(got)) < want {
+			o.Fail = fmt.Sprintf("a subscriber whose SUBSCRIBE was confirmed while %d of %d messages had been begun (another subscriber was not reading) received %d messages, at least %d were published after the confirmation", from, c.Messages, len(got), want)
+			return o
+		}
+		if p := orderProblem(trimPayloads(got)); p != "" {
+			o.Fail = "late subscriber: " + p
+			return o
+		}
+		o.Labels = append(o.Labels, "late-subscriber")
 	}
 	deadline := time.Now().Add(5 * time.Second)
 	for idx, s := range healthy {
@@ -687,7 +751,7 @@ func TestStalledSubscriber(t *testing.T) {
 	kit.Check(t, kit.Spec[StallCase]{Sub: "stall", Quick: 2, Thorough: 20,
 		Gen: func(t *rapid.T) StallCase {
 			return StallCase{PayloadKB: rapid.SampledFrom([]int{16, 64, 256}).Draw(t, "kb"), Messages: rapid.SampledFrom([]int{40, 160, 400}).Draw(t, "msgs"),
-				Healthy: rapid.IntRange(0, 2).Draw(t, "healthy")}
+				Healthy: rapid.IntRange(0, 2).Draw(t, "healthy"), Late: rapid.Bool().Draw(t, "late"), LateMs: rapid.SampledFrom([]int{50, 300, 900, 1400}).Draw(t, "latems")}
 		},
 		Exec: execStall})
 }
